@@ -250,7 +250,7 @@ def run(ctx):
             if P.discharge(F, f, s, dbname, set()):
                 R.ok(1)
                 continue
-            key = "%s|%s|%s" % (f.name, s["kind"], P.descriptor(f, s))
+            key = P.site_key(f, s)
             used[key] = used.get(key, 0) + 1
             row = ledger.get(key)
             R.ob(row is not None and used[key] <= row["max"], "PANIC", "%s:%d" % (f.loc["f"], s["line"]), "PANIC|" + key,
